@@ -51,7 +51,7 @@ package hub
 //@   implements api.ShipConnectionInfoProviderInterface.IsRemoteServiceForSKIPaired
 //@   requires @HUBINV(h)
 //@   ensures [C01] G5-paired: result == ($Trusted[@K()])
-//@   ensures @RSFRAME(h) && @HUBINV(h)
+//@   ensures @RSFRAME(h) && @HUBINV(h) && @K() in h.remoteServices && (@K() in old(h.remoteServices) ==> h.remoteServices[@K()] == old(h.remoteServices[@K()]))
 //@   ensures forall j: string :: $Trusted[j] == old($Trusted[j])
 //@   modifies h.remoteServices[@K()]
 
@@ -106,4 +106,98 @@ package hub
 //@   ensures [C11] F2-others: forall j: string :: j != @CK() ==> (j in h.connections) == (j in old(h.connections)) && h.connections[j] == old(h.connections[j])
 //@   ensures [C11] F2-counter: handshakeCompleted && old(@CK() in h.connections) ==> !(@CK() in h.connectionAttemptCounter)
 //@   atcall RemoteSKIDisconnected [C11] F2-notify: $0 == @CK()
+//@   modifies *
+
+// ======================= connections: dial gate (C10), peer identity (C02), SHIP ID (C09) =======================
+
+// The hub's trust store stands behind the abstract trust relation: a callee that may change $Trusted[s]
+// (the SHIP layer calling back into HandleShipHandshakeStateUpdate) may change these locations.
+//@ abstraction $Trusted[s] of (h *Hub) := s in h.remoteServices && h.remoteServices[s].trusted havocs h.remoteServices[s], h.remoteServices[s].trusted, h.remoteServices[s].connectionStateDetail
+
+// ---- library contracts (assumed) ----
+//@ ghost field WsConn.$under int
+//@ ghost field WsConn.$subproto string
+//@ ghost field TlsConn.$peerSkiHex string
+//@ ghost field TlsConn.$peerSkiLen int
+//@ lib (d *websocket.Dialer).Dial(urlStr, requestHeader)
+//@   ensures result.2 == nil ==> result.0 != nil && result.1 != nil && result.1.Body != nil
+//@ lib (c *websocket.Conn).UnderlyingConn() pure
+//@   ensures typeis(result, "*crypto/tls.Conn") && ref(result) == c.$under && ref(result) != 0
+//@ lib (c *websocket.Conn).Subprotocol() pure
+//@   ensures result == c.$subproto
+//@ lib (c *tls.Conn).ConnectionState() pure
+//@   ensures len(result.PeerCertificates) > 0 ==> result.PeerCertificates[0] != nil && hex(result.PeerCertificates[0].SubjectKeyId) == c.$peerSkiHex && len(result.PeerCertificates[0].SubjectKeyId) == c.$peerSkiLen
+//@ lib (u *websocket.Upgrader).Upgrade(w, r, responseHeader)
+//@   ensures result.1 == nil ==> result.0 != nil
+//@ iface io.ReadCloser.Close()
+//@ lib x509.ParseCertificate(der) pure
+//@   ensures result.1 == nil ==> result.0 != nil
+//@ lib slices.SortFunc(s, cmp)
+//@   modifies class("elems:net.IP")
+//@ lib sort.Slice(x, less)
+//@   modifies class("elems:*github.com/enbility/ship-go/api.MdnsEntry")
+//@ lib context.Background() pure
+//@ lib (s *http.Server).Shutdown(ctx)
+//@ lib (s *http.Server).ListenAndServeTLS(certFile, keyFile)
+//@ lib time.Duration.String() pure
+
+// ---- peer identity on the accepting side ----
+//@ func (h *Hub).verifyPeerCertificate(rawCerts, verifiedChains) [C02,C08]
+//@ func (h *Hub).startWebsocketServer() [C02]
+//@   ensures [C02] V1-tls12: h.httpServer != nil && h.httpServer.TLSConfig != nil && h.httpServer.TLSConfig.MinVersion >= 771
+//@   ensures [C02] V2-clientcert: h.httpServer.TLSConfig.ClientAuth >= 2
+//@   ensures [C02] V3-verify: funcis(h.httpServer.TLSConfig.VerifyPeerCertificate, "(*hub.Hub).verifyPeerCertificate$bound")
+//@   ensures [C02] V4-ciphers: h.httpServer.TLSConfig.CipherSuites == cert.CipherSuites
+//@   modifies h.httpServer
+//@ closure (h *Hub).startWebsocketServer$1
+//@   requires h.httpServer != nil
+
+//@ macro PEER() := r.TLS.PeerCertificates[0]
+// crypto/tls hands over non-nil certificates (assumed)
+//@ func (h *Hub).ServeHTTP(w, r) entry [C02,C09,C08]
+//@   requires r != nil && (r.TLS != nil && len(r.TLS.PeerCertificates) > 0 ==> r.TLS.PeerCertificates[0] != nil)
+//@   atcall NewConnectionHandler [C02] I1-cert: r.TLS != nil && len(r.TLS.PeerCertificates) > 0 && @PEER() != nil && len(@PEER().SubjectKeyId) == 20
+//@   atcall NewConnectionHandler [C02] I2-ski: $4 == norm(hex(@PEER().SubjectKeyId))
+//@   atcall NewConnectionHandler [C02] I2-bound: $4 == norm(skiOfKey(@PEER()))
+//@   atcall NewConnectionHandler [C02] I3-role: $2 == ship.ShipRoleServer
+//@   atcall NewConnectionHandler [C02] I4-subprotocol: cast($1, ws.WebsocketConnection).conn.$subproto == api.ShipWebsocketSubProtocol
+//@   atcall NewConnectionHandler [C09] I5-shipid: $4 in h.remoteServices && $5 == h.remoteServices[$4].shipID && $3 == h.localService.shipID
+//@   atcall NewWebsocketConnection [C02] I6-transport: $1 == norm(hex(@PEER().SubjectKeyId))
+//@   modifies *
+
+// ---- the dialling side ----
+//@ macro GATE(s) := (s.trusted || s.connectionStateDetail.state == api.ConnectionStateQueued)
+//@ macro REGISTERED(h, s) := (s != nil && s.ski in h.remoteServices && h.remoteServices[s.ski] == s)
+//@ macro SAME(s) := (s.trusted == old(s.trusted) && s.connectionStateDetail == old(s.connectionStateDetail) && s.connectionStateDetail.state == old(s.connectionStateDetail.state))
+//@ func (h *Hub).keepThisConnection(conn, incomingRequest, remoteService) [C11]
+//@   requires @HUBINV(h) && remoteService != nil
+//@   ensures [C11] F3-first: !(remoteService.ski in old(h.connections)) ==> result
+//@   ensures [C11] F3-survivor: remoteService.ski in old(h.connections) ==> result == ite(incomingRequest, remoteService.ski > h.localService.ski, h.localService.ski > remoteService.ski)
+//@   ensures @HUBINV(h)
+//@   modifies h.connections[remoteService.ski].$closeCalls, h.connections[remoteService.ski].$lastSafe, h.connections[remoteService.ski].$lastCode, h.connections[remoteService.ski].$lastReason
+//@ func (h *Hub).sendWSCloseMessage(conn) [C08]
+//@   requires conn != nil
+//@   modifies conn.$connClosed
+
+//@ func (h *Hub).connectFoundService(remoteService, host, port, path) [C10,C02,C09,C08]
+//@   requires inv: @HUBINV(h)
+//@   requires reg: @REGISTERED(h, remoteService)
+//@   requires [C10] D1-gate: @GATE(remoteService)
+//@   atcall Dial [C10] D1-dial: @GATE(remoteService)
+//@   atcall NewConnectionHandler [C02] O1-ski: $4 == remoteService.ski && $4 == cast(cast($1, ws.WebsocketConnection).conn.$under, tls.Conn).$peerSkiHex && cast(cast($1, ws.WebsocketConnection).conn.$under, tls.Conn).$peerSkiLen == 20
+//@   atcall NewConnectionHandler [C02] O2-role: $2 == ship.ShipRoleClient
+//@   atcall NewConnectionHandler [C09] O3-shipid: $5 == remoteService.shipID && $3 == h.localService.shipID
+//@   ensures result != nil ==> @SAME(remoteService) && @HUBINV(h) && @REGISTERED(h, remoteService)
+//@   modifies *
+
+//@ func (h *Hub).initateConnection(remoteService, entry) [C10,C08]
+//@   requires @HUBINV(h) && @REGISTERED(h, remoteService) && entry != nil
+//@   atcall connectFoundService [C10] D1-recheck: @GATE(remoteService)
+//@   ensures !result ==> @HUBINV(h)
+//@   modifies *
+//@ loop (h *Hub).initateConnection #0
+//@   invariant @HUBINV(h) && @REGISTERED(h, remoteService) && @GATE(remoteService) && entry != nil
+
+//@ func (h *Hub).prepareConnectionInitation(ski, counter, entry) [C10,C08]
+//@   requires @HUBINV(h) && entry != nil
 //@   modifies *
